@@ -171,14 +171,18 @@ package main
 // Comments are only ever removed, and only those lying entirely inside a changed interval; the lines they
 // occupied are merged (C17). No comment is added, moved or duplicated here.
 //@ func cleanupFilePos(tfile, cl, comments)
+//@   at call (*go/token.File).MergeLine assert [C08,C17] only-physical-lines-are-merged: isPhysLine(tfile, arg1)
 //@   assigns allof("F.S_ast_CommentGroup.List")
 //@   loop 0
 //@     invariant linesToDelete != nil
+//@     invariant [C08,C17] only-physical-lines-are-merged: forall n int {has(linesToDelete, n)} :: has(linesToDelete, n) ==> isPhysLine(tfile, n)
 //@   loop 1
 //@     invariant linesToDelete != nil
+//@     invariant [C08,C17] only-physical-lines-are-merged: forall n int {has(linesToDelete, n)} :: has(linesToDelete, n) ==> isPhysLine(tfile, n)
 //@     decreases fileLine(tfile, dr.End) - i
 //@   loop 2
 //@     invariant linesToDelete != nil
+//@     invariant [C08,C17] only-physical-lines-are-merged: forall n int {has(linesToDelete, n)} :: has(linesToDelete, n) ==> isPhysLine(tfile, n)
 //@   loop 3
 //@     unfold keptLen(cg.List, dr.Start, dr.End, 0) == 0
 //@     unfold keptLen(cg.List, dr.Start, dr.End, #k + 1) == keptLen(cg.List, dr.Start, dr.End, #k) + ite(cPos(cg.List[#k]) >= dr.Start && cEnd(cg.List[#k]) <= dr.End, 0, 1)
@@ -187,7 +191,9 @@ package main
 //@     invariant list.arr == 0 || fresh(list.arr)
 //@   loop 4
 //@     invariant fresh(lines.arr)
+//@     invariant [C08,C17] only-physical-lines-are-merged: forall j int {lines[j]} :: 0 <= j && j < len(lines) ==> isPhysLine(tfile, lines[j])
 //@   loop 5
+//@     invariant [C08,C17] i < len(lines) && forall j int {lines[j]} :: 0 <= j && j < len(lines) ==> isPhysLine(tfile, lines[j])
 //@     decreases i + 1
 
 // The sort.Slice comparison of findFiles.
